@@ -195,6 +195,8 @@ def main():
     stride = int(sys.argv[4]) if len(sys.argv) > 4 else 1
     offset = int(sys.argv[5]) if len(sys.argv) > 5 else 0
     ms = candidates()[offset::stride]
+    if os.environ.get("MUT_FILE"):       # restrict to files whose path contains this fragment
+        ms = [m for m in ms if os.environ["MUT_FILE"] in m["file"]]
     parts = [(i, ms[i::slots]) for i in range(slots)]
     with Pool(slots) as pool:
         allres = [r for part in pool.map(work, parts) for r in part]
